@@ -243,6 +243,16 @@ def _reader_common(p, styles=("file", "socket"), lemmas=()):
         p.replayers[u.name] = ru.replay_step
     for lm in lemmas:
         p.add(CustomUnit(f"lemma.reader/{lm}", ru.lemma_unit, (lm,), props=(p.prop,), cost=5))
+    if "socket" in styles and p.prop == "C09":
+        # the socket-style abstract stream stands for SocketWrapper: its clauses are the wrapper's contracts. C09's claim
+        # for sockets whose peer stops after k bytes rests on exactly those contracts (what a short read returns and
+        # keeps), so C09 discharges them on the real wrapper itself, as C10 does in its own plan. C06 / C11 / C12 keep
+        # using them as stated assumptions: those properties can hold on a wrapper that breaks its contract, and a
+        # failing wrapper obligation there would be an alarm on code where the property holds.
+        for m in ("_recv", "read", "readline"):
+            p.func(W + m)
+        for m in ("read", "readline"):
+            p.add(CustomUnit(f"lemma.{p.prop}/as-socket[{m}]", ru.as_socket_refinement_unit, (m,), props=(p.prop,)))
     # the configuration the step is quantified over is the one the constructor was given (or its documented defaults)
     p.func(R + "__init__")
     # iteration is read() until it reports the end: nothing else stops it, nothing is skipped
@@ -312,7 +322,11 @@ def plan_C09(p, tier, seed):
         "or the cut stream ends there (EOF, or a truncated frame dropped with the stream exhausted); an item from the "
         "cut stream is always the same complete frame; a frame lying wholly before the cut is handled identically. "
         "The real loop body is proved equal to the specification (step contract). Joint trace invariant SMT-checked.")
-    _reader_common(p, styles=("file",), lemmas=("cut", "basic[file]", "eof_at_end[file]"))
+    # "every stream" includes a socket whose peer stops after k bytes: the socket-style step is proved too, the style
+    # lemma reduces a socket carrying S[:k] to the file-like stream S[:k], and the lemma's premises - the contracts of
+    # SocketWrapper.read / readline / _recv and the refinement of the abstract socket-style stream - are discharged in
+    # this plan as well (a change to the wrapper that lets a short read return or keep bytes fails here, not only in C10)
+    _reader_common(p, lemmas=("cut", "style", "basic[file]", "eof_at_end[file]", "basic[socket]", "eof_at_end[socket]"))
     p.func(R + "_read_bytes")
     p.func(R + "_read_line")
     p.add(CustomUnit("lemma.lifting/C09", ru.lifting_unit, ("C09",), props=("C09",)))
@@ -802,7 +816,11 @@ def plan_C14(p, tier, seed):
         "the CFG-VAL* message; more than 64 items is refused. cfgkey2name / cfgname2key are verified against their contracts "
         "once per database entry (1242 keys) plus the symbolic unknown-ID / unknown-name cases. Ground: every key's declared "
         "width equals its ID's size code, IDs unique, name<->ID lookups agree. Parsing: the key/value loop of "
-        "_set_attribute_cfgval is verified (invariant, termination) inside the CFG-VALGET / CFG-VALSET constructor instances.")
+        "_set_attribute_cfgval is verified inside the CFG-VALGET / CFG-VALSET constructor instances: invariant, termination, "
+        "per-item clauses on an arbitrary iteration (key word at the offset, name from the lookup, value by the key's type) and "
+        "contiguity as loop step / exit clauses - the first item starts after the 4-byte header, an item iteration advances the "
+        "offset by 4 + the width the key ID's size code prescribes (widths restated, not read from the library's table), every "
+        "other iteration leaves it, and the loop stops only when fewer than 5 bytes are left.")
     for fn in ("config_set", "config_del", "config_poll"):
         for form in ("id", "name"):
             lab = f"{M}{fn}[{form} keys]"
@@ -837,5 +855,14 @@ def plan_C14(p, tier, seed):
              CustomUnit("x", factory_unit, ("contracts.message", "c14_config", ("config_set", "id"), "x")))
     p.canary("value-before-key", "pyubx2.ubxmessage", "            lis = lis + keyb + valb\n", "            lis = lis + valb + keyb\n",
              CustomUnit("x", factory_unit, ("contracts.message", "c14_config", ("config_set", "id"), "x")))
+    # the parse-side loop: offset advance and stopping condition (step / exit clauses of the loop contract)
+    cu = CustomUnit("x", inst.init_unit, (0, b"\x06\x8b"))
+    cu.select = r"_set_attribute_cfgval/loop1:"
+    p.canary("cfgval-advance-one-too-far", "pyubx2.ubxmessage", "                offset += KEYLEN + atts\n",
+             "                offset += KEYLEN + atts + 1\n", cu)
+    cu = CustomUnit("x", inst.init_unit, (1, b"\x06\x8a"))
+    cu.select = r"_set_attribute_cfgval/loop1:"
+    p.canary("cfgval-stops-a-key-early", "pyubx2.ubxmessage", "        while offset < cfglen:\n",
+             "        while offset < cfglen - KEYLEN:\n", cu)
     p.canary("poll-header-order", "pyubx2.ubxmessage", "        payload = version + layer + position\n", "        payload = layer + version + position\n",
              CustomUnit("x", factory_unit, ("contracts.message", "c14_config", ("config_poll", "id"), "x")))
